@@ -85,6 +85,7 @@ fn base_cfg(seed: u64, i: usize) -> (Vec<Row>, HybridCfg) {
         assign,
         timeout: Duration::from_secs(120),
         tamper: None,
+        more_tampers: vec![],
         stop_on_error_of: 0b111,
     };
     (rows, cfg)
@@ -284,6 +285,140 @@ fn tamper_with(env: &Env, src: &mut Src<'_>, only: Option<&str>, bases: std::ops
     })
 }
 
+/// A deviating helper that lies *consistently* about one opening: the same edit is applied to the
+/// copies it sends for that opening and to the copies it receives (its own view of the opened
+/// value), so that the helper's own honest code carries on with the falsified value instead of
+/// tripping over its own lie in a later check. Editing what the corrupt helper receives changes
+/// nothing for the honest helpers - it is the corrupt helper's internal state - so this is still
+/// a deviation of a single helper, and the oracle is the same as in `tamper_with`.
+fn tamper_view_case(env: &Env, src: &mut Src<'_>) -> CaseResult {
+    let bi = src.idx(N_BASE);
+    let base = match baseline(env.seed, bi) {
+        Ok(b) => b,
+        Err(e) => return Ok(CaseOk::new(false, &0u8, serde_json::Value::Null).label(format!("baseline-unusable:{}", e.chars().take(40).collect::<String>()))),
+    };
+    let corrupt = src.idx(3);
+    let mut cand: Vec<usize> = (0..base.by_sender[corrupt].len()).filter(|c| base.by_sender[corrupt][*c].0.gate.contains("reveal")).collect();
+    if cand.is_empty() {
+        return Ok(CaseOk::new(false, &0u8, serde_json::Value::Null).label("no-matching-channel"));
+    }
+    for depth in 2..7 {
+        let mut m: BTreeMap<&str, Vec<usize>> = BTreeMap::new();
+        for &c in &cand {
+            let comp = base.by_sender[corrupt][c].0.gate.split('/').nth(depth).unwrap_or("");
+            m.entry(comp).or_default().push(c);
+        }
+        if m.len() > 1 {
+            let keys: Vec<&str> = m.keys().copied().collect();
+            let k = keys[src.idx(keys.len())];
+            cand = m.remove(k).unwrap();
+        }
+    }
+    let ch = cand[src.idx(cand.len())];
+    let (key, chunks) = &base.by_sender[corrupt][ch];
+    let ordinal = match src.below(3) {
+        0 => 0,
+        1 => chunks.len() - 1,
+        _ => src.idx(chunks.len()),
+    };
+    let len = chunks[ordinal];
+    if len == 0 {
+        return Ok(CaseOk::new(false, &0u8, serde_json::Value::Null).label("empty-chunk"));
+    }
+    // position: early bytes are the lanes / rows that carry real records
+    let byte = match src.below(4) {
+        0 => 0,
+        1 => src.idx(len.min(4)),
+        2 => len - 1,
+        _ => src.idx(len),
+    };
+    let (edit, ename) = match src.below(3) {
+        0 | 1 => (Edit::BitFlip { byte, bit: src.below(8) as u8 }, "bitflip"),
+        _ => (Edit::AddLe { elem: byte / 32, stride: 32.min(len), width: 16.min(len), delta: 1 + src.below(1 << 16) as u128, modulus: None }, "add"),
+    };
+    // which copies are falsified
+    let mode = src.pick(&["one-out+in", "all-out+in", "in-only"]);
+    let same_step = |k: &ChannelKey| k.gate == key.gate && k.shard == key.shard;
+    let mut tampers: Vec<Tamper> = vec![];
+    if mode != "in-only" {
+        tampers.push(Tamper { key: key.clone(), ordinal, edit: edit.clone() });
+    }
+    if mode == "all-out+in" {
+        for (k, c) in &base.by_sender[corrupt] {
+            if same_step(k) && k != key && c.len() > ordinal {
+                tampers.push(Tamper { key: k.clone(), ordinal, edit: edit.clone() });
+            }
+        }
+    }
+    let mut incoming = 0;
+    for q in 0..3 {
+        if q == corrupt {
+            continue;
+        }
+        for (k, c) in &base.by_sender[q] {
+            if same_step(k) && k.dest == corrupt && c.len() > ordinal {
+                tampers.push(Tamper { key: k.clone(), ordinal, edit: edit.clone() });
+                incoming += 1;
+            }
+        }
+    }
+    if tampers.is_empty() {
+        return Ok(CaseOk::new(false, &0u8, serde_json::Value::Null).label("no-copy-to-falsify"));
+    }
+    let mut cfg = base.cfg.clone();
+    let n_edits = tampers.len();
+    cfg.tamper = Some(tampers.remove(0));
+    cfg.more_tampers = tampers;
+    let honest = [(corrupt + 1) % 3, (corrupt + 2) % 3];
+    cfg.stop_on_error_of = (1 << honest[0]) | (1 << honest[1]);
+    cfg.timeout = (base.elapsed * 20).max(Duration::from_secs(5));
+    let cj = json!({"base": bi, "base_cfg": base.cfg.json(), "corrupt": corrupt, "opening": {"gate": key.gate, "shard": key.shard}, "mode": mode,
+                    "falsified_copies": n_edits, "of_which_received_by_the_corrupt_helper": incoming, "ordinal": ordinal, "len": len, "edit": format!("{edit:?}")});
+    let res = run_hybrid(&cfg, &base.rows);
+    let mut labels = vec![format!("edit:{ename}"), format!("mode:{mode}"), format!("corrupt:H{}", corrupt + 1), format!("step:{}", gate_prefix(&key.gate, 3).trim_end_matches(|c: char| c.is_ascii_digit())), format!("incoming-copies:{incoming}")];
+    if !res.tamper_fired || !res.tamper_changed {
+        labels.push(if res.tamper_fired { "edit-no-change".into() } else { "edit-not-fired".into() });
+        return Ok(CaseOk::new(false, &0u8, serde_json::Value::Null).labels(labels));
+    }
+    let honest_failed = honest.iter().any(|h| res.outcomes[*h].iter().any(|o| o.as_ref().is_some_and(|o| !o.is_ok())));
+    let verdict;
+    if honest_failed {
+        verdict = "detected";
+    } else if res.timed_out || honest.iter().any(|h| res.outcomes[*h].iter().any(Option::is_none)) {
+        verdict = "no-output";
+    } else {
+        let out = |h: usize| match &res.outcomes[h][0] {
+            Some(HelperOutcome::Ok(v)) => v.clone(),
+            _ => unreachable!(),
+        };
+        match reconstruct2(&out(honest[0]), &out(honest[1])) {
+            Ok(h) if h == base.hist => verdict = "unchanged",
+            Ok(h) => {
+                let diff: Vec<_> = (0..h.len().min(256)).filter(|i| h[*i] != base.hist[*i]).take(5).map(|i| json!({"bucket": i, "got": h[i].to_string(), "want": base.hist[i].to_string()})).collect();
+                return Err(violation(
+                    format!("accepted-different:consistent-lie:{}", gate_prefix(&key.gate, 2)),
+                    format!("H{} falsified {n_edits} copies ({mode}) of the opening {} and both honest helpers accepted a different result: {}", corrupt + 1, key.gate, serde_json::to_string(&diff).unwrap()),
+                    cj,
+                ));
+            }
+            Err(e) => {
+                return Err(violation(
+                    format!("accepted-undetermined:consistent-lie:{}", gate_prefix(&key.gate, 2)),
+                    format!("H{} falsified {n_edits} copies ({mode}) of the opening {}: honest helpers returned Ok but their shares do not determine a result: {e}", corrupt + 1, key.gate),
+                    cj,
+                ));
+            }
+        }
+    }
+    labels.push(format!("verdict:{verdict}"));
+    Ok(CaseOk {
+        nontrivial: true,
+        digest: digest(&(bi, corrupt, &key.gate, key.shard, ename, mode, ordinal, byte)),
+        labels,
+        sample: json!({"case": cj, "verdict": verdict, "elapsed_ms": res.elapsed.as_millis() as u64}),
+    })
+}
+
 /// The catalogue itself: one case per base input; reports its size (channels per sender, distinct
 /// steps) so the evidence shows what the fault space was.
 fn catalogue_case(env: &Env, src: &mut Src<'_>) -> CaseResult {
@@ -321,6 +456,9 @@ pub fn subs(_env: &Env) -> Vec<Sub> {
         .shrink_iters(16),
         Sub::random("tamper_reveal", 40, 400, 6_000, tamper_reveal_case,
             "same as `tamper`, restricted to channels of steps whose gate contains `reveal` (openings of pseudonyms, breakdown keys, share-conversion masks, MAC keys): the receiver gets two copies of the missing share and must refuse to open when they differ")
+        .shrink_iters(16),
+        Sub::random("tamper_view", 40, 400, 6_000, tamper_view_case,
+            "a helper that lies consistently about one opening: one edit (bit flip or small addition at a generated position, biased to the first lanes) applied to the copy it sends to one peer / to all peers AND to every copy it receives for the same opening (its own view, so that its honest code continues with the falsified value), or to the received copies only; same oracle as `tamper`. Reaches what single-message edits cannot: an opening check that is missing on one receiver is otherwise masked by the corrupt helper's own later inconsistency")
         .shrink_iters(16),
     ]
 }
